@@ -14,6 +14,7 @@ One driver process = a sequence of *journal processes* on one database file:
   jrn.rec K <in|out> B B                   recover_messages; bound B = n<int> | x<utf8 hex>
   jrn.rec1 K <in|out> B                    recover_msg
   jrn.getall <-|[]|k,k,…> <-|in|out>       get_all_msgs
+  jrn.fault J <Operational|Data>   the J-th execute()/commit() of the NEXT method call raises that sqlite3 error (once)
   jrn.save / jrn.load     remember / restore the whole connection state (one slot): a long prefix is run once
   jrn.digest              get_all_msgs() as `g <count> <checksum>` (large journals)
   jrn.calls               execute()/commit() calls made by the current process so far
@@ -30,11 +31,12 @@ structure St where
   dead : Bool := true
   calls : Nat := 0
   saved : Conn := {}
+  inject : Option (Nat × Kind) := none
 
 def kindStr : Kind → String
   | .fixMessage => "FIXMessage" | .duplicateSeqNo => "DuplicateSeqNo" | .assertion => "Assertion"
   | .overflow => "Overflow" | .integrity => "Integrity" | .stopIteration => "StopIteration"
-  | .internal => "Internal"
+  | .internal => "Internal" | .operational => "Operational" | .data => "Data"
 
 def handleStr (h : Handle) : String :=
   s!"{h.key}:{Driver.strTok h.target}:{Driver.strTok h.sender}:{h.nextOut}:{h.nextIn}"
@@ -75,6 +77,22 @@ def runOpWith (fmt : Res → String) (st : St) (p : Prog Res) : St × String :=
       ({ st with conn := c, fuel := some 0, dead := true, calls := st.calls + (f - f') }, "dead")
 
 def runOp (st : St) (p : Prog Res) : St × String := runOpWith resStr st p
+
+/-- a method call, with the armed collaborator fault (if any) applied to it -/
+def runMethod (st : St) (op : Op) : St × String :=
+  match st.inject with
+  | none => runOp st op.prog
+  | some (j, kind) =>
+    let st := { st with inject := none }
+    if st.dead then (st, "dead")
+    else
+      let f := st.fuel.getD bigFuel
+      match op.prog.runInj op.commitFail kind j f st.conn with
+      | (c, f', some r) =>
+        ({ st with conn := c, fuel := st.fuel.map fun _ => f', calls := st.calls + (f - f') },
+          resStr r ++ (if c.inTx then " tx=1" else " tx=0"))
+      | (c, f', none) =>
+        ({ st with conn := c, fuel := some 0, dead := true, calls := st.calls + (f - f') }, "dead")
 
 def tokFuel (t : String) : Option (Option Nat) :=
   if t == "-" then some none else t.toNat?.map some
@@ -117,28 +135,32 @@ def handle (st : St) (cmd : String) (args : List String) : St × String :=
     | none => (st, "bad-op")
   | "col", [t, s] =>
     match Driver.tokStr t, Driver.tokStr s with
-    | some t, some s => runOp st (Op.createOrLoad t s).prog
+    | some t, some s => runMethod st (Op.createOrLoad t s)
     | _, _ => (st, "bad-op")
-  | "sessions", [] => runOp st Op.sessions.prog
+  | "sessions", [] => runMethod st Op.sessions
   | "persist", [k, o, i, d, m] =>
     match mkHandle k o i, tokDir d, Driver.tokBytes m with
-    | some h, some d, some m => runOp st (Op.persist m h d).prog
+    | some h, some d, some m => runMethod st (Op.persist m h d)
     | _, _, _ => (st, "bad-op")
   | "set", [k, o, i, a, b] =>
     match mkHandle k o i, tokOptInt a, tokOptInt b with
-    | some h, some a, some b => runOp st (Op.setSeqNum h a b).prog
+    | some h, some a, some b => runMethod st (Op.setSeqNum h a b)
     | _, _, _ => (st, "bad-op")
   | "rec", [k, d, lo, hi] =>
     match mkHandle k "0" "0", tokDir d, tokBound lo, tokBound hi with
-    | some h, some d, some lo, some hi => runOp st (Op.recover h d lo hi).prog
+    | some h, some d, some lo, some hi => runMethod st (Op.recover h d lo hi)
     | _, _, _, _ => (st, "bad-op")
   | "rec1", [k, d, b] =>
     match mkHandle k "0" "0", tokDir d, tokBound b with
-    | some h, some d, some b => runOp st (Op.recoverMsg h d b).prog
+    | some h, some d, some b => runMethod st (Op.recoverMsg h d b)
     | _, _, _ => (st, "bad-op")
   | "getall", [ks, d] =>
     match tokKeys ks, tokOptDir d with
-    | some ks, some d => runOp st (Op.getAll ks d).prog
+    | some ks, some d => runMethod st (Op.getAll ks d)
+    | _, _ => (st, "bad-op")
+  | "fault", [j, k] =>
+    match j.toNat?, (if k == "Operational" then some Kind.operational else if k == "Data" then some Kind.data else none) with
+    | some j, some k => ({ st with inject := some (j, k) }, "ok")
     | _, _ => (st, "bad-op")
   | "save", [] => ({ st with saved := st.conn }, "ok")
   | "load", [] => ({ st with conn := st.saved, fuel := none, dead := false, calls := 0 }, "ok")
